@@ -101,7 +101,7 @@ int main(int argc, char** argv) {
 #ifdef VERIF_FLAVOUR_C
   verif::on_abort(onAbort);
 #endif
-  unsigned execs = mode == "ctl" ? (thorough ? 6000 : 1200) : (thorough ? 300 : 40);
+  unsigned execs = mode == "ctl" ? (thorough ? 3000 : 1200) : (thorough ? 300 : 40);
   TreeDet tree;
   for (int det = 0; det < 2; ++det)
     for (unsigned n = 1; n <= maxN; ++n)
